@@ -21,8 +21,15 @@ RULE = ('W: random DAGs of real bfg9000 file objects (executables, shared/versio
         'shared libraries in every combination of {versioned, unversioned} x {installed implicitly as run-time dependency '
         'of the installed program, implicitly as run-time dependency of an implicitly installed library, explicitly}, '
         'whether the main library is versioned / named by a .pc file is dealt out in turn; every DT_NEEDED name of every '
-        'installed ELF file that the project builds must be in the installed tree, and the installed program is run '
-        'under every DESTDIR mode while the build directory is moved away.')
+        'installed ELF file that the project builds must be in the installed tree, and the installed programs are run '
+        'under every DESTDIR mode while the build directory AND the source tree are moved away. Every project also keeps '
+        'pre-built libraries as binary files in its source tree (a shared one and an archive, named by shared_library(path) '
+        '/ static_library(path) / library(path) without files=, directory names with blanks): a second installed program '
+        'links nothing but them, the main program links them next to the libraries the project builds (drawn); the rpath '
+        'of EVERY installed ELF file is read back with patchelf and each entry must lie below the configured install '
+        'directories (not in the source or build tree, not $ORIGIN-relative). In process: for every installed binary and '
+        'every library option whose run-time file is installed, patchelf.installed_rpath is the directory that file is '
+        'installed to (libraries rooted in the source tree, the build tree and absolute ones).')
 TRUSTED = ('specification of doppel/rm/patchelf as file-system operations (Install.v cmd_ops), validated on this run against '
            'the real doppel, rm and patchelf by executing the generated install rules',
            'GNU Make command-line variable override semantics (exercised: make install DESTDIR=...)',
@@ -364,6 +371,30 @@ def one_case(rng, rep=None):
         if len(got) != len(want) or any(not any(g == w for w in want) for g in got):
             rep.fail('installed set %r is not the closure of the explicit items under install_deps %r' % (got, want),
                      {'calls': calls_enc, 'installed': repr(got), 'closure': repr(want)})
+        # run-time search paths are rewritten to the INSTALLED library locations: for every installed binary and every
+        # library among its link options whose run-time file is installed with it, the directory searched after
+        # installation is the directory that file is installed to - never one of the source or the build tree
+        from bfg9000 import options as opts_, file_types as ft_
+        from bfg9000.tools import patchelf as pe_
+        for s_ in io.host:
+            if getattr(s_, 'post_install', None) is None:
+                continue
+            for o in s_.post_install.args[1]:
+                if not (isinstance(o, opts_.lib) and isinstance(o.library, ft_.Library) and o.library.runtime_file):
+                    continue
+                rt = o.library.runtime_file
+                try:
+                    got_dir = pe_.installed_rpath(env, o.library, io)
+                except KeyError:
+                    got_dir = None             # a library that is not installed and not absolute: nothing to rewrite to
+                rep.count('oracle:installed-rpath:%s' % ('not installed' if rt not in io.target else
+                                                         'installed,from-' + rt.path.root.name))
+                want_dir = io.target[rt].path.parent() if rt in io.target else None
+                if got_dir is not None and (got_dir.root in (Root.srcdir, Root.builddir) or
+                                            (want_dir is not None and got_dir != want_dir)):
+                    rep.fail('installed %r links %r (installed to %r): the run-time search path after installation is %r' % (
+                        s_, rt, want_dir, got_dir), {'calls': calls_enc, 'binary': repr(s_), 'library': repr(rt),
+                                                    'installed_rpath': repr(got_dir), 'kind': 'installed-rpath'})
         for s_, h in io.host.items():
             tail = '' if isinstance(s_, __import__('bfg9000').file_types.Directory) else s_.path.basename()
             if not h.path.destdir or not h.path.suffix.endswith(tail) or h.path.root == Root.srcdir or h.path.root == Root.builddir:
@@ -526,15 +557,33 @@ def gen_project(rng, root, rep=None, idx=0, offset=0):
                                                       'explicitly' if x['way'] == 'explicit' else 'implicitly-by-' + x['via']))
     by_prog = [x for x in extras if x['via'] == 'prog']
     by_baz = [x for x in extras if x['via'] == 'baz']
+    # libraries that exist already: binary files kept in the SOURCE tree and named without files= (a shared one and
+    # an archive).  A second installed program links nothing but them; the main program links them next to the
+    # libraries the project builds (drawn)
+    predir = rng.choice(['prebuilt', 'third party/lib', 'vendor/x86-64'])
+    pre_prog = rng.random() < 0.6             # the main program links the pre-built shared library too
+    pst_fn = rng.choice(['static_library', 'library'])
+    pst_solo, pst_prog = rng.choice([(True, False), (False, True), (True, True)])
+    pst_inst = rng.random() < 0.5
+    if rep:
+        rep.count('proj:prebuilt-shared:linked-by=%s' % ('solo+prog' if pre_prog else 'solo'))
+        rep.count('proj:prebuilt-static:%s,linked-by=%s,installed=%s' % (
+            pst_fn, '+'.join(n for n, f in (('solo', pst_solo), ('prog', pst_prog)) if f), pst_inst))
+    prebuilt = [{'path': predir + '/libext.so', 'kind': 'shared', 'source': 'int ext(void){return 23;}\n'},
+                {'path': predir + '/libpst.a', 'kind': 'static', 'source': 'int pst(void){return 29;}\n'}]
     total = 3 + (2 + sum(x['value'] for x in by_baz) if lib2 else 0) + sum(x['value'] for x in by_prog)
+    total += (23 if pre_prog else 0) + (29 if pst_prog else 0)
     files = {
         'foo.c': '#include <foo.h>\nint foo(void){return 1;}\n',
         'baz.c': 'int foo(void);\n%sint baz(void){return foo() + 1%s;}\n' % (
             ''.join('int %s(void);\n' % x['name'] for x in by_baz), ''.join(' + %s()' % x['name'] for x in by_baz)),
         'bar.c': 'int bar(void){return 2;}\n',
-        'main.c': '#include <foo.h>\nint bar(void);\n%s%sint main(void){return foo() + bar()%s%s - %d;}\n' % (
+        'main.c': '#include <foo.h>\nint bar(void);\nint ext(void);\nint pst(void);\n%s%sint main(void){return foo() + bar()%s%s%s%s - %d;}\n' % (
             'int baz(void);\n' if lib2 else '', ''.join('int %s(void);\n' % x['name'] for x in by_prog),
-            ' + baz()' if lib2 else '', ''.join(' + %s()' % x['name'] for x in by_prog), total),
+            ' + baz()' if lib2 else '', ''.join(' + %s()' % x['name'] for x in by_prog),
+            ' + ext()' if pre_prog else '', ' + pst()' if pst_prog else '', total),
+        'solo.c': 'int ext(void);\nint pst(void);\nint main(void){return ext()%s - %d;}\n' % (
+            ' + pst()' if pst_solo else '', 23 + (29 if pst_solo else 0)),
         'tool.c': 'int main(void){return 0;}\n',
         'include/foo.h': 'int foo(void);\n',
         'include/%s/x.h' % sub: '/* x */\n',
@@ -559,7 +608,11 @@ def gen_project(rng, root, rep=None, idx=0, offset=0):
         L.append("baz = shared_library('deep/baz', files=['baz.c'], libs=[%s])" % ', '.join(['foo'] + [x['name'] for x in by_baz]))
         libs.insert(0, 'baz')
     libs += [x['name'] for x in by_prog]
-    L += ["prog = executable('prog', files=['main.c'], libs=[%s], includes=[hd])" % ', '.join(libs),
+    libs += (['ext'] if pre_prog else []) + (['pst'] if pst_prog else [])
+    L += ["ext = shared_library(%r)" % prebuilt[0]['path'],
+          "pst = %s(%r)" % (pst_fn, prebuilt[1]['path']),
+          "prog = executable('prog', files=['main.c'], libs=[%s], includes=[hd])" % ', '.join(libs),
+          "solo = executable('solo', files=['solo.c'], libs=[%s])" % ', '.join(['ext'] + (['pst'] if pst_solo else [])),
           "tool = executable('tool', files=['tool.c'])",
           "install(prog)",
           "install(hd%s)" % (', directory=%r' % hdrdir_arg if hdrdir_arg else ''),
@@ -574,6 +627,9 @@ def gen_project(rng, root, rep=None, idx=0, offset=0):
                      "install(man_page('man/api/deep/demo_foo.3', compress=False))"])
     if static_inst:
         inst.append(["install(bar)"])
+    inst.append(["install(solo)"])
+    if pst_inst:
+        inst.append(["install(pst)"])
     if pc:
         inst.append(["pkg_config('demo', version='1.0', libs=[foo])"])
     rng.shuffle(inst)               # explicit installs before and after the implicit ones
@@ -619,10 +675,16 @@ def gen_project(rng, root, rep=None, idx=0, offset=0):
         exp += [('mandir', 'man5/demofmt.5.gz'), ('mandir', 'man3/demo_foo.3')]
     if static_inst:
         exp.append(('libdir', 'libbar.a'))
+    # the pre-built shared library is a run-time dependency of an installed program; files of the source tree are
+    # installed under their base name
+    exp += [('bindir', 'solo'), ('libdir', 'libext.so')]
+    if pst_inst:
+        exp.append(('libdir', 'libpst.a'))
     if pc:
         exp.append(('libdir', 'pkgconfig/demo.pc'))
     rt_dirs = ['libdir/deep', 'libdir'] if lib2 else ['libdir']
-    return {'files': files, 'args': args, 'expected': exp, 'sysroot': sysroot, 'rpath_dirs': rt_dirs, 'bfg': files['build.bfg']}
+    return {'files': files, 'args': args, 'expected': exp, 'sysroot': sysroot, 'rpath_dirs': rt_dirs, 'bfg': files['build.bfg'],
+            'prebuilt': prebuilt, 'programs': {'prog': rt_dirs, 'solo': ['libdir']}}
 
 
 def tree_files(top):
@@ -659,15 +721,45 @@ def elf_needed(path, env):
     return [x for x in p.stdout.split('\n') if x] if p.returncode == 0 else None
 
 
+def make_prebuilt(rep, s, proj):
+    """the libraries a project keeps in its source tree as binary files: made here, outside the project, with gcc / ar"""
+    e = common.impl_env()
+    tmp = os.path.join(s.root, 'pre.tmp')
+    os.mkdir(tmp)
+    try:
+        for k, pb in enumerate(proj['prebuilt']):
+            dst = os.path.join(s.src, pb['path'])
+            os.makedirs(os.path.dirname(dst), exist_ok=True)
+            with open(os.path.join(tmp, 'p%d.c' % k), 'w') as f:
+                f.write(pb['source'])
+            base = os.path.basename(dst)
+            if pb['kind'] == 'shared':
+                cmds = [['gcc', '-shared', '-fPIC', '-Wl,-soname,' + base, '-o', dst, 'p%d.c' % k]]
+            else:
+                cmds = [['gcc', '-c', '-fPIC', 'p%d.c' % k, '-o', 'p%d.o' % k], ['ar', 'cr', dst, 'p%d.o' % k]]
+            for c in cmds:
+                p = subprocess.run(c, cwd=tmp, env=e, capture_output=True, text=True, timeout=120)
+                if p.returncode != 0:
+                    rep.fail('system setup: cannot make the pre-built library %s: %s' % (pb['path'], p.stderr[-300:]),
+                             {'obligation': 'system setup'}, found_input=False)
+                    return False
+        return True
+    finally:
+        shutil.rmtree(tmp, ignore_errors=True)
+
+
 def system_project(rep, rng, idx, offset=0):
     """One generated project through configure, build, install, uninstall; returns number of failures."""
     bad = 0
     with project.Scratch('c15') as s:
         proj = gen_project(rng, s.root, rep, idx, offset)
         project.write_tree(s.src, proj['files'])
+        if not make_prebuilt(rep, s, proj):
+            return bad + 1
         cfgdest = os.path.join(s.root, 'cfg dest')
         rc, out = project.configure(s.src, s.build, 'make', proj['args'], extra_env={'DESTDIR': cfgdest})
-        replay = {'build.bfg': proj['bfg'], 'configure_args': proj['args']}
+        replay = {'build.bfg': proj['bfg'], 'configure_args': proj['args'],
+                  'prebuilt (binary files of the source tree, made with gcc -shared / ar from these sources)': proj['prebuilt']}
 
         def fail(what, **kw):
             nonlocal bad
@@ -777,11 +869,12 @@ def system_project(rep, rng, idx, offset=0):
                 elif rp is not None:
                     pr = subprocess.run(['patchelf', '--print-rpath', os.path.join(top, rel)], capture_output=True, text=True, env=e)
                     got_rp = pr.stdout.strip()
-                    want_rp = ':'.join(dirval['libdir'] + x[len('libdir'):] for x in proj['rpath_dirs'])
                     rep.case('rpath:%d:%s:%s' % (idx, mode, got_rp), True)
                     okc = got_rp == rp
-                    if got_rp != want_rp and rel.endswith('prog'):
-                        fail('rpath of installed %s is %r, installed library directories are %r' % (rel, got_rp, want_rp))
+                    for pname, pdirs in proj['programs'].items():
+                        want_rp = ':'.join(dirval['libdir'] + x[len('libdir'):] for x in pdirs)
+                        if got_rp != want_rp and os.path.basename(rel) == pname:
+                            fail('rpath of installed %s is %r, installed library directories are %r' % (rel, got_rp, want_rp))
                 else:
                     okc = real[rel] == open(sp, 'rb').read()
                 if not okc:
@@ -807,11 +900,26 @@ def system_project(rep, rng, idx, offset=0):
             # what the installed binaries need at run time is installed with them: every DT_NEEDED name that the
             # project itself builds is present in the installed tree (under exactly that name: the loader opens the
             # soname, not the development link or the real file)
-            built = {os.path.basename(k) for k in snap0[1]}
+            built = {os.path.basename(k) for k in snap0[1]} | {os.path.basename(pb['path']) for pb in proj['prebuilt']}
             have = {os.path.basename(k) for k in real}
+            trees = [os.path.normpath(s.src), os.path.normpath(s.build)]
             for rel in realset:
                 fp = os.path.join(top, rel)
                 needed = None if os.path.islink(fp) else elf_needed(fp, e)
+                if needed is not None:
+                    # run-time search paths are rewritten to the installed library locations: no entry of any installed
+                    # ELF file (the model says nothing here: the file itself is read) may lead into the source or the
+                    # build tree, or be relative to where the file was built
+                    pr = subprocess.run(['patchelf', '--print-rpath', fp], capture_output=True, text=True, env=e)
+                    entries = [x for x in pr.stdout.strip().split(':') if x]
+                    rep.count('rpath-entries-read', len(entries))
+                    rep.count('installed-elf:' + ('with' if entries else 'without') + '-rpath')
+                    for x in entries:
+                        nx = os.path.normpath(x)
+                        if x.startswith('$ORIGIN') or any((nx + '/').startswith(t + '/') for t in trees) or \
+                                not (nx + '/').startswith(os.path.normpath(proj['sysroot']) + '/'):
+                            fail('installed %s (%s DESTDIR) searches %r at run time (rpath %r): not an installed library '
+                                 'location (source tree %r, build tree %r)' % (rel, mode, x, pr.stdout.strip(), s.src, s.build))
                 for nm in needed or []:
                     rep.count('needed:' + ('project library' if nm in built else 'system library'))
                     if nm in built and nm not in have:
@@ -819,20 +927,26 @@ def system_project(rep, rng, idx, offset=0):
                              'not install; installed: %r' % (rel, mode, nm, realset))
             # the installed program runs: from its final location when installed without staging, from the staging
             # area (library directories given to the loader) otherwise - with the build directory out of the way
+            # and with the source tree out of the way: an installation does not depend on the tree it was made from
             away = s.build + '.away'
             os.rename(s.build, away)
+            os.rename(s.src, s.src + '.away')
             try:
-                libdirs = [os.path.normpath(dest + dirval['libdir'] + x[len('libdir'):]) for x in proj['rpath_dirs']]
-                renv = {'PATH': '/usr/bin:/bin'}
-                if dest:
-                    renv['LD_LIBRARY_PATH'] = ':'.join(libdirs)
-                pr = subprocess.run([os.path.normpath(dest + dirval['bindir'] + '/prog')], capture_output=True, env=renv, cwd='/')
-                rep.case('runs:%d:%s' % (idx, mode), True)
-                if pr.returncode != 0:
-                    fail('installed prog (%s DESTDIR) does not run once the build directory is gone: rc=%d %s' % (
-                        mode, pr.returncode, pr.stderr.decode('utf-8', 'replace')[-300:]), installed=realset)
+                for pname, pdirs in sorted(proj['programs'].items()):
+                    libdirs = [os.path.normpath(dest + dirval['libdir'] + x[len('libdir'):]) for x in pdirs]
+                    renv = {'PATH': '/usr/bin:/bin'}
+                    if dest:
+                        renv['LD_LIBRARY_PATH'] = ':'.join(libdirs)
+                    pr = subprocess.run([os.path.normpath(dest + dirval['bindir'] + '/' + pname)], capture_output=True, env=renv,
+                                        cwd='/')
+                    rep.case('runs:%d:%s:%s' % (idx, mode, pname), True)
+                    if pr.returncode != 0:
+                        fail('installed %s (%s DESTDIR) does not run once the build directory and the source tree are gone: '
+                             'rc=%d %s' % (pname, mode, pr.returncode, pr.stderr.decode('utf-8', 'replace')[-300:]),
+                             installed=realset)
             finally:
                 os.rename(away, s.build)
+                os.rename(s.src + '.away', s.src)
             # 3. uninstall: removes exactly what install created
             rc, out = run_make(s.build, ['uninstall'] + margs)
             left = sorted(tree_files(top)) if os.path.exists(top) else []
